@@ -112,16 +112,21 @@ where
                     }
                 };
                 let codec = new_codec(context.as_ref())?;
-                match tls_acceptor.accept(inbound).await {
-                    Ok(inbound) => {
-                        if ws_config.is_some() {
-                            tokio::spawn(template::tcp::accept_websocket_then_replay(inbound, new_codec(context.as_ref())?));
-                        } else {
-                            tokio::spawn(template::tcp::relay(inbound, codec));
+                let tls_acceptor = tls_acceptor.clone();
+                let websocket = ws_config.is_some();
+                // the TLS handshake belongs to the connection's own task: a peer that stalls it must not stop the listener
+                tokio::spawn(async move {
+                    match tls_acceptor.accept(inbound).await {
+                        Ok(inbound) => {
+                            if websocket {
+                                template::tcp::accept_websocket_then_replay(inbound, codec).await
+                            } else {
+                                template::tcp::relay(inbound, codec).await
+                            }
                         }
+                        Err(e) => error!("[tcp] tls handshake failed: {}", e),
                     }
-                    Err(e) => error!("[tcp] tls handshake failed: {}", e),
-                }
+                });
             }
         }
     }
